@@ -59,12 +59,30 @@ def _events(args):
             row += [["v", 0]] * 6
         return row
 
+    pending = [0, False]
+
+    def flush():
+        # aggregate rows of the item just finished learn whether their chunk sat on the minus strand (field 15)
+        for e in ev[pending[0]:]:
+            if e[0] == "agg" and len(e) == 14:
+                e.append(pending[1])
+        pending[0] = len(ev)
+
     for (blocks, st, cacb, f0, win) in items:
+        flush()
         R = "".join(rnd.choice("ACGT") for _ in range(G))
         cds = cds_blocks(blocks, st, *cacb) if cacb else None
         frames = list(_consistent_frames(cds, st, f0)) if cds else []
         ws, we = win
-        chunk = seq_chunk_to_parent(R[ws:we], "chr", ws, we)
+        # a quarter of the chunks sit on the MINUS strand of the chromosome (their sequence is the reverse complement of
+        # the window): every chromosome-level answer is the same
+        minus_chunk = rnd.random() < 0.25
+        pending[1] = minus_chunk
+        if minus_chunk:
+            comp = {"A": "T", "C": "G", "G": "C", "T": "A"}
+            chunk = seq_chunk_to_parent("".join(comp[c] for c in reversed(R[ws:we])), "chr", ws, we, strand=Strand.MINUS)
+        else:
+            chunk = seq_chunk_to_parent(R[ws:we], "chr", ws, we)
         try:
             A = mk_tx(blocks, st, cds, R, frames=frames, transcript_id="tx", sequence_name="chr")
         except Exception:
@@ -78,9 +96,20 @@ def _events(args):
             b = rnd.randrange(a + 1, G + 1)
             return seq_chunk_to_parent(R[a:b], "chr", a, b)
 
-        route = rnd.choice(["ctor", "liftover", "ctor", "chunk2chunk"])
+        route = rnd.choice(["ctor", "liftover", "ctor", "chunk2chunk", "from-chunk-relative"])
+        if route == "from-chunk-relative" and not (ws <= blocks[0][0] and blocks[-1][1] <= we):
+            route = "ctor"  # the classmethod rebuilds from what is ON the chunk: a twin only when nothing is cut off
         holder = []
-        if route == "ctor":
+        if route == "from-chunk-relative":
+            from inscripta.biocantor.gene.transcript import TranscriptInterval
+
+            def rebuilt():
+                b0 = on_chunk()
+                return TranscriptInterval.from_chunk_relative_location(
+                    b0.chunk_relative_location, cds=b0.cds, transcript_id="tx", sequence_name="chr")
+
+            ctor = E.outcome(lambda: holder.append(rebuilt()) or 1)
+        elif route == "ctor":
             ctor = E.outcome(lambda: holder.append(on_chunk()) or 1)
         elif route == "liftover":
             ctor = E.outcome(lambda: holder.append(A.liftover_to_parent_or_seq_chunk_parent(chunk)) or 1)
@@ -204,6 +233,7 @@ def _events(args):
             for i, (fA, fB) in enumerate(zip(FA.feature_intervals, FB.feature_intervals)):
                 ev.append(twin_row(fA, fB, blocks if i == 0 else blocks[-1:], st, None, [], R, ws, we,
                                    r4 + "/child", ["v", 1]))
+    flush()
     return ev, pos_ev
 
 
@@ -221,6 +251,8 @@ def _key(ev, clause):
         return "cds:single-exon-chunk-offset"
     if clause == "aggregate-identifier:from-chunk-location":
         return "agg:guid-from-chunk-location"
+    if clause == "chunk:from-chunk-relative-location-refuses-touching-blocks":
+        return "chunk:from-chunk-relative-merges-touching-blocks"
     return None
 
 
